@@ -12,9 +12,13 @@ trap 'git -C /repo checkout -- . ; git -C /repo clean -fdq -- identity_* 2>/dev/
 mkdir -p /tmp/seeded-run-root && cp /verif/known_findings.json /tmp/seeded-run-root/
 out=$(cd /verif && VERIF_ROOT=/tmp/seeded-run-root ./check "$id" --tier "$tier" 2>&1); rc=$?
 echo "$out" | grep -E "VIOLATION|KNOWN-FINDING|MACHINERY|^\[$id\] tier" | head -20
+log_result() { # <verdict>
+  local keys; keys=$(echo "$out" | grep -E "^  key=" | sed 's/^  key=\([^ ]*\).*/\1/' | sort -u | head -12 | tr '\n' ';')
+  printf '{"patch":"%s","check":"%s","tier":"%s","result":"%s","mode":"repo-apply","repo_head":"%s","keys":"%s"}\n' "$(echo $patch | sed 's|.*/verif/||')" "$id" "$tier" "$1" "$(git -C /repo rev-parse --short HEAD)" "$(echo $keys | sed 's/"/\\"/g' | cut -c1-900)" >> /verif/seeded/RESULTS.jsonl
+}
 case $rc in
-  1) echo "RESULT $id $(basename $(dirname $patch)) $tier: DETECTED";;
-  0) echo "RESULT $id $(basename $(dirname $patch)) $tier: MISSED";;
+  1) echo "RESULT $id $(basename $(dirname $patch)) $tier: DETECTED"; log_result DETECTED;;
+  0) echo "RESULT $id $(basename $(dirname $patch)) $tier: MISSED"; log_result MISSED;;
   *) echo "RESULT $id $(basename $(dirname $patch)) $tier: MACHINERY rc=$rc"; echo "$out" | tail -20;;
 esac
 exit 0
